@@ -270,7 +270,11 @@ def _match_wildcard(node: ast.AST, template: Wildcard, ignore: Collection[str]) 
 
     namedtuple_type = _make_match_type((template.name,))
     template_match = match_template(node, template.template, ignore=ignore)
-    return namedtuple_type(template_match[0]) if len(template_match) == 1 else ()
+    if len(template_match) <= 1:
+        return namedtuple_type(template_match[0]) if template_match else ()
+
+    # What the wildcard stands for has wildcards of its own, and their bindings come along.
+    return merge_matches(node, (template_match, namedtuple_type(node)))
 
 
 def _match_template_vars(
